@@ -154,6 +154,28 @@ def chunks(data):
     return out
 
 
+def static_facts():
+    """what go2lean extracted on this run, compared with the hand-written allow-list (for diagnostics and evidence)"""
+    try:
+        gen = open(os.path.join(core.LEAN, "Gen", "Secrets.lean")).read()
+        model = open(os.path.join(core.LEAN, "Drand", "Secrecy.lean")).read()
+    except OSError as e:
+        return {"error": str(e)}
+    def lst(src, name):
+        m = re.search(r"def " + name + r" : List String := \[(.*?)\n?\]", src, flags=re.S)
+        return re.findall(r'^\s*"((?:[^"\\]|\\.)*)"', m.group(1), flags=re.M) if m else []
+    readers = lst(gen, "secretReaders")
+    allowed = lst(model, "allowedReaders")
+    m = re.search(r"def secretSinks : List String := \[(.*)\]", gen)
+    sinks = re.findall(r'"((?:[^"\\]|\\.)*)"', m.group(1)) if m else []
+    m = re.search(r"def secretFunctionsAnalysed : Nat := (\d+)", gen)
+    return {"functions_analysed": int(m.group(1)) if m else 0, "secret_readers": len(readers),
+            "readers_not_on_allow_list": sorted(set(readers) - set(allowed)), "allow_list_entries_without_reader": sorted(set(allowed) - set(readers)),
+            "secret_sinks": sinks,
+            "save_call_sites": re.findall(r'^\s*\("([^"]+)", "([^"]+)", "([^"]+)", (true|false)\)', gen, flags=re.M),
+            "file_creators": len(lst(gen, "fileCreators"))}
+
+
 def explore(ctx, res):
     if ctx.get("replay"):
         # a replay file names the harness invocation (seed, tier) and the capture / file that failed: re-run exactly that
@@ -162,6 +184,8 @@ def explore(ctx, res):
         ctx = dict(ctx, seed=int(args[1]), rng=core.Rng(int(args[1])))
         res.cov["replayed"] = {"file": ctx["replay"], "harness_args": args, "signature": r.get("signature")}
         return _explore(ctx, res, args[2])
+    st = static_facts()
+    res.cov["static_facts"] = st
     if ctx["deep"] and ctx["tier"] == "quick" and not ctx.get("_c15_second_pass"):
         # something upstream (translator / proof / build) broke: look for a concrete failing input, cheapest budget first
         _explore(dict(ctx, _c15_second_pass=True), res, "quick")
@@ -170,6 +194,17 @@ def explore(ctx, res):
         res.violations.clear()
         res.known.clear()
     _explore(ctx, res, "thorough" if ctx["deep"] else ctx["tier"])
+    if ctx["deep"] and not any(found for _, found in res.violations):
+        # nothing emitted by the sampled executions shows it, but the static obligations no longer hold: say which
+        if st.get("readers_not_on_allow_list") or st.get("secret_sinks") or st.get("allow_list_entries_without_reader"):
+            res.add_violation({"engine": "go2lean:secrets", "kind": "proof-broken",
+                               "theorem": "Drand.Secrecy.c15_readers_allowed / c15_readers_exact / c15_no_secret_sinks",
+                               "ops": ["go2lean " + core.REPO + " → lean/Gen/Secrets.lean"],
+                               "observed": ["functions reading secret-bearing fields that are not on the allow-list: " + ", ".join(st.get("readers_not_on_allow_list", [])),
+                                            "formatting / logging calls with a secret argument: " + "; ".join(st.get("secret_sinks", [])),
+                                            "allow-list entries that no longer read a secret: " + ", ".join(st.get("allow_list_entries_without_reader", []))],
+                               "note": "the byte scan of the sampled executions found no leak (the new code may not be reached); review the function and either remove the read or add it to allowedReaders with a reason"},
+                              found=False)
 
 
 def _explore(ctx, res, tier):
